@@ -1,9 +1,9 @@
 package rules
 
 import (
-	"strings"
 	"go/ast"
 	"go/types"
+	"strings"
 
 	"jsverif/internal/core"
 )
